@@ -172,3 +172,66 @@ func VerifC19Punish() {
 
 // history horizon: recommended epochs to collect payment (3) + the longer window (8) = 11 epochs before epoch 400
 const verifC19MinHistory = 400 - 11*verifRPEpochBlocks
+
+// VerifC19TwoCandidates: two of the three providers of a chain are punishable in the same epoch-start pass (overwhelming
+// complaints, long stake history; each on its first or on its third jail within a day).  Every punishment counts against
+// the guard: the pass punishes exactly as many providers as the chain has non-frozen providers above the smallest plan's
+// providers-to-pair (two at most), so the non-frozen providers never drop below that count, whatever mix of soft and hard
+// jails the candidates get.
+func VerifC19TwoCandidates() {
+	w := verifRPNewWorld(1000, 20)
+	w.epochs.earliest = 0
+	w.epochs.current = 400
+	if verif_symbolic() {
+		w.ctx = w.ctx.WithBlockHeight(400)
+	} else {
+		tkey := storetypes.NewTransientStoreKey("transient_pairing_params")
+		w.ctx = verifCtx(400, 1700000000, w.k.storeKey, tkey)
+		w.k.paramstore = paramtypes.NewSubspace(w.k.cdc, codec.NewLegacyAmino(), w.k.storeKey, tkey, "pairing").WithKeyTable(types.ParamKeyTable())
+		w.k.SetParams(w.ctx, types.DefaultParams())
+	}
+	plans := verifC19Plans{maxProviders: uint64(verif_nondet_range("smallestPlan.MaxProvidersToPair", 1, 3))}
+	w.k.planKeeper = plans
+	now := w.ctx.BlockTime().UTC().Unix()
+	names := []string{verifRPAddr(1), verifRPAddr(4), verifRPAddr(5)}
+	verifC19Current, verifC19Stored = nil, nil
+	for i := 0; i < 3; i++ {
+		e := epochstoragetypes.StakeEntry{Address: names[i], Chain: "LAV1", StakeAppliedBlock: 10}
+		if i < 2 {
+			e.Jails = uint64(2 * verif_nondet_range("candidate.jailsSoFar/2", 0, 1))
+			e.JailEndTime = now - 100
+			cu := verif_nondet_u64("candidate.complaints")
+			verif_assume(cu > 0 && cu < 1<<60)
+			w.k.SetProviderEpochComplainerCu(w.ctx, 340, names[i], "LAV1", types.ProviderEpochComplainerCu{ComplainersCu: cu})
+			w.k.SetProviderEpochCu(w.ctx, 340, names[i], "LAV1", types.ProviderEpochCu{ServicedCu: 0})
+		}
+		verifC19Current = append(verifC19Current, e)
+	}
+
+	w.k.PunishUnresponsiveProviders(w.ctx, types.EPOCHS_NUM_TO_CHECK_CU_FOR_UNRESPONSIVE_PROVIDER, types.EPOCHS_NUM_TO_CHECK_FOR_COMPLAINERS)
+
+	allowed := 0
+	if plans.maxProviders < 3 {
+		allowed = int(3 - plans.maxProviders)
+	}
+	if allowed > 2 {
+		allowed = 2
+	}
+	verif_assert("every-punishment-counts-against-the-min-providers-guard", len(verifC19Stored) <= allowed)
+	verif_assert("candidates-are-punished-while-enough-providers-remain", len(verifC19Stored) == allowed)
+	unfrozen := uint64(0)
+	for _, e := range verifC19Current {
+		if !e.IsFrozen() {
+			unfrozen++
+		}
+	}
+	verif_assert("never-below-the-smallest-plans-provider-count", unfrozen >= plans.maxProviders)
+	if len(verifC19Stored) == 2 {
+		verif_assert("two-different-providers-punished", verifC19Stored[0].Address != verifC19Stored[1].Address)
+		verif_reach("both")
+	}
+	if len(verifC19Stored) == 1 {
+		verif_reach("one")
+	}
+	verif_reach("end")
+}
